@@ -68,11 +68,12 @@ Definition transform (k : kind) (tr : list wev) : list wev := if is_buffer k the
 
 (* documented answer of an intervening layer *)
 Definition cookie_key : Z := 1000.
-Definition answer (k : kind) : list wev :=
-  match k with
+Definition answer (l : layer) : list wev :=
+  match lkind l with
   | KConn => [WriteHeader 429; Write [1]]
   | KRate => [SetHdr 1001 0; SetHdr 1002 0; WriteHeader 429; Write [2]]   (* Retry-After, X-Retry-In *)
-  | KBreaker => [WriteHeader 503; Write [3]]
+  | KBreaker => if sticky l then [SetHdr 1003 0; WriteHeader 302; Write [6]]   (* a redirect fallback: Location *)
+                else [WriteHeader 503; Write [3]]
   | KRR | KReb => [WriteHeader 500; Write [4]]
   | KBuffer => [WriteHeader 413; Write [5]]
   | KStream | KTrace => []                                              (* never intervene *)
@@ -90,7 +91,7 @@ Fixpoint serve (st : list layer) (c : caps) (h : list hact) : list wev * Z :=
   match st with
   | [] => (run_handler c h, 1)
   | l :: rest =>
-      if intervenes l && can_intervene (lkind l) then (answer (lkind l), 0)
+      if intervenes l && can_intervene (lkind l) then (answer l, 0)
       else let '(tr, n) := serve rest (caps_through (lkind l) c) h in
            (own l ++ transform (lkind l) tr, n)
   end.
